@@ -49,6 +49,7 @@ class ConsequentMonitor:
         self.ctx, self.fl = ctx, fl
         self.H = W.Oracle(fl).H
         self.setter_calls = 0
+        self.rejected = set()  # id(rule) of rules whose load the workload saw rejected: triggering them must add nothing
         self.engine_of = {}  # id(rule) -> engine the workload says the rule belongs to (its output variables are the ones meant)
 
     def install(self, probe):
@@ -65,6 +66,9 @@ class ConsequentMonitor:
 
     def _before(self, args, kwargs):
         rule = args[0]
+        if id(rule) in self.rejected:
+            owner = self.engine_of.get(id(rule))
+            return {"rejected": {ov.name: (ov, len(ov.fuzzy.terms)) for ov in (owner.output_variables if owner is not None else [])}}
         if not rule.is_loaded():
             return None
         outs = {}
@@ -81,6 +85,13 @@ class ConsequentMonitor:
         ctx, fl, rule = self.ctx, self.fl, args[0]
         implication = args[1] if len(args) > 1 else kwargs.get("implication")
         if st is None:
+            return
+        if "rejected" in st:
+            ctx.evaluated()
+            ctx.hit("piece:rule whose load was rejected")
+            added = {n: len(ov.fuzzy.terms) - k for n, (ov, k) in st["rejected"].items() if len(ov.fuzzy.terms) != k}
+            if added or rule.is_loaded():
+                ctx.violation("a rule whose consequent was rejected reports loaded / contributes when triggered", {"rule": rule.text, "is_loaded": rule.is_loaded()}, "nothing added", added)
             return
         if exc is not None:
             ctx.hit(f"event:trigger raised {type(exc).__name__}")
@@ -233,11 +244,30 @@ def run(ctx):
                     results.setdefault(key, got)
                     ctx.hit("law:permutation")
                     ctx.evaluated()
+            if i % 5 == 0:
+                # a consequent that goes wrong after its first conclusion: the load is rejected and the rule stays out
+                bad = "if in0 is t then " + E.prop_text(concl[0]) + rnd.choice([" and nosuchvariable is x", f" and {specs[0]['name']} is nosuchterm", f" and {specs[0]['name']} is", " and", f" and {specs[0]['name']} very"])
+                broken = fl.Rule.create(bad)
+                try:
+                    broken.load(engine)
+                    ctx.violation("a consequent that is not grammatical is accepted", {"rule": bad}, "rejected", "loaded")
+                except Exception:
+                    pass
+                mon.rejected = {id(broken)}
+                mon.engine_of = {id(broken): engine}
+                for ov in engine.output_variables:
+                    ov.fuzzy.clear()
+                broken.activation_degree = fl.scalar(0.75)
+                try:
+                    broken.trigger(implication)
+                except Exception:
+                    pass
+                mon.rejected = set()
             if i < 3:
                 ctx.sample("consequent", {"rule": text, "rule_enabled": enabled, "degrees": degs, "contributions": results.get(0)})
         probe.report(ctx)
         reach.report(ctx)
-    ctx.require("hook:Rule.trigger", "hook:Consequent.modify", "hook:Activated.degree.setter", "compare:appended terms", "law:permutation", "piece:disabled rule", "piece:conclusion on a disabled variable", "piece:hedged conclusion", "piece:hedge on an earlier conclusion of several", "degree:batch", "degree:grid", "route:rule of a duplicated engine (copy)", "route:rule of a duplicated engine (deepcopy)", "degree:nan", "degree:inf", "degree:zero", "degree:partial")
+    ctx.require("hook:Rule.trigger", "hook:Consequent.modify", "hook:Activated.degree.setter", "compare:appended terms", "law:permutation", "piece:disabled rule", "piece:conclusion on a disabled variable", "piece:hedged conclusion", "piece:hedge on an earlier conclusion of several", "piece:rule whose load was rejected", "degree:batch", "degree:grid", "route:rule of a duplicated engine (copy)", "route:rule of a duplicated engine (deepcopy)", "degree:nan", "degree:inf", "degree:zero", "degree:partial")
 
 
 def passive(ctx, fl, probe):
